@@ -154,3 +154,29 @@ Theorem C01_xcube_cube_cruciform_commute_for_all_sizes :
   Toric3D.overlap3 (XCube.face_support Lx Ly Lz axis v) (XCube.cube_support Lx Ly Lz c) = false.
 Proof. exact XCube.xcube_cube_face_commute. Qed.
 Print Assumptions C01_xcube_cube_cruciform_commute_for_all_sizes.
+
+(** Layer P, RotatedPlanar3DCode (rotated lattice, open boundaries), every size L_x, L_y, L_z >= 2: all generators
+    pairwise commute; the logical X line commutes with every vertex generator, the logical Z sheet with every face
+    generator, and the two share exactly one qubit (they anticommute). *)
+From PQ Require RotatedPlanar3D RotatedPlanar3DLogicals.
+Theorem C01_rotated_planar3d_all_stabilizers_commute_for_all_sizes :
+  forall (Lx Ly Lz : BinNums.Z) s s', (2 <= Lx)%Z -> (2 <= Ly)%Z -> (2 <= Lz)%Z ->
+  In s (RotatedPlanar3D.stab_coords Lx Ly Lz) -> In s' (RotatedPlanar3D.stab_coords Lx Ly Lz) ->
+  Toric3D.ops_commute3 (RotatedPlanar3D.is_vertex s) (RotatedPlanar3D.support Lx Ly Lz s)
+                       (RotatedPlanar3D.is_vertex s') (RotatedPlanar3D.support Lx Ly Lz s') = true.
+Proof. exact RotatedPlanar3D.rotated_planar3d_stabilizers_commute. Qed.
+Print Assumptions C01_rotated_planar3d_all_stabilizers_commute_for_all_sizes.
+
+Theorem C01_rotated_planar3d_logicals_for_all_sizes :
+  forall (Lx Ly Lz : BinNums.Z) s, (2 <= Lx)%Z -> (2 <= Ly)%Z -> (2 <= Lz)%Z -> In s (RotatedPlanar3D.stab_coords Lx Ly Lz) ->
+  ((RotatedPlanar3D.is_vertex s = true ->
+    Toric3D.overlap3 (RotatedPlanar3D.support Lx Ly Lz s) (RotatedPlanar3DLogicals.lx Lx) = false) /\
+   (RotatedPlanar3D.is_vertex s = false ->
+    Toric3D.overlap3 (RotatedPlanar3D.support Lx Ly Lz s) (RotatedPlanar3DLogicals.lz Ly Lz) = false)) /\
+  Toric3D.overlap3 (RotatedPlanar3DLogicals.lx Lx) (RotatedPlanar3DLogicals.lz Ly Lz) = true.
+Proof.
+  intros Lx Ly Lz s H1 H2 H3 Hs. split.
+  - exact (RotatedPlanar3DLogicals.rotated_planar3d_logicals_commute_with_stabilizers Lx Ly Lz s H1 H2 H3 Hs).
+  - apply RotatedPlanar3DLogicals.rotated_planar3d_logical_pairing; apply BinInt.Z.le_trans with (m := 2%Z); try assumption; discriminate.
+Qed.
+Print Assumptions C01_rotated_planar3d_logicals_for_all_sizes.
